@@ -19,6 +19,8 @@ fn pool() -> Vec<T> {
         SimpleTerm::LiteralLanguage("a".into(), LanguageTag::new_unchecked("en".into())), SimpleTerm::LiteralLanguage("a".into(), LanguageTag::new_unchecked("EN".into())),
         SimpleTerm::LiteralLanguage("a".into(), LanguageTag::new_unchecked("En-us".into())), SimpleTerm::LiteralLanguage("a".into(), LanguageTag::new_unchecked("en-US".into())),
         SimpleTerm::LiteralLanguage("b".into(), LanguageTag::new_unchecked("fr".into())),
+        SimpleTerm::LiteralLanguage("a".into(), LanguageTag::new_unchecked("en-Latn-US-u-ca-gregory-x-sophia-demo-a".into())), SimpleTerm::LiteralLanguage("a".into(), LanguageTag::new_unchecked("en-Latn-US-u-ca-gregory-x-sophia-demo-b".into())),
+        SimpleTerm::LiteralLanguage("a".into(), LanguageTag::new_unchecked("en-Latn-US-u-ca-gregory-x-sophia-de".into())), SimpleTerm::LiteralLanguage("a".into(), LanguageTag::new_unchecked("EN-LATN-us-u-ca-gregory-x-sophia-demo-a".into())),
         SimpleTerm::Variable(VarName::new_unchecked("a".into())), SimpleTerm::Variable(VarName::new_unchecked("b".into())),
     ];
     let q1 = SimpleTerm::Triple(Box::new([v[0].clone(), v[1].clone(), v[8].clone()]));
@@ -34,7 +36,18 @@ fn pool() -> Vec<T> {
     v
 }
 fn rank(t: &T) -> u8 { match t.kind() { TermKind::BlankNode => 0, TermKind::Iri => 1, TermKind::Literal => 2, TermKind::Triple => 3, TermKind::Variable => 4 } }
-fn h<X: Term + ?Sized>(t: &X) -> u64 { let mut s = DefaultHasher::new(); t.hash(&mut s); s.finish() }
+/// the hash fed to std's DefaultHasher, combined with the hash fed to a hasher that mixes in the LENGTH of every
+/// write() call (hashers need not treat write(a); write(b) like write(ab): ahash, FxHasher do not)
+fn h<X: Term + ?Sized>(t: &X) -> u64 {
+    struct Boundary(u64);
+    impl Hasher for Boundary {
+        fn finish(&self) -> u64 { self.0 }
+        fn write(&mut self, bytes: &[u8]) { self.0 = self.0.wrapping_mul(1099511628211).wrapping_add(0x9e37 + bytes.len() as u64); for b in bytes { self.0 = (self.0 ^ *b as u64).wrapping_mul(1099511628211); } }
+    }
+    let mut s = DefaultHasher::new(); t.hash(&mut s);
+    let mut b = Boundary(14695981039346656037); t.hash(&mut b);
+    s.finish() ^ b.finish().rotate_left(17)
+}
 fn fail(what: String) -> ! { println!("{{\"mismatch\":{:?}}}", what); std::process::exit(1) }
 
 /// every provided way of converting / copying a term into another provided term type yields an equal term
